@@ -50,9 +50,9 @@ type c28Cache struct {
 }
 
 type c28Step struct {
-	R  [3]int    `json:"r"`  // found value (-1 none), flag, purge hook id (-1 none)
-	Ev [][3]int  `json:"ev"` // eviction listener calls during this step
-	St c28State  `json:"st"`
+	R  [3]int   `json:"r"`  // found value (-1 none), flag, purge hook id (-1 none)
+	Ev [][3]int `json:"ev"` // eviction listener calls during this step
+	St c28State `json:"st"`
 }
 
 type c28State struct {
@@ -61,14 +61,14 @@ type c28State struct {
 }
 
 type c28Result struct {
-	Kind    string     `json:"kind"`
-	Index   int        `json:"index"`
-	Steps   []c28Step  `json:"steps,omitempty"`
-	Start   *c28State  `json:"start,omitempty"`
-	Batch   [][3]int   `json:"batch,omitempty"`
-	BatchEv [][3]int   `json:"batch_ev,omitempty"`
-	Final   *c28State  `json:"final,omitempty"`
-	Error   string     `json:"error,omitempty"`
+	Kind    string    `json:"kind"`
+	Index   int       `json:"index"`
+	Steps   []c28Step `json:"steps,omitempty"`
+	Start   *c28State `json:"start,omitempty"`
+	Batch   [][3]int  `json:"batch,omitempty"`
+	BatchEv [][3]int  `json:"batch_ev,omitempty"`
+	Final   *c28State `json:"final,omitempty"`
+	Error   string    `json:"error,omitempty"`
 }
 
 func c28ParseOps(text string) ([]c28Op, error) {
@@ -295,13 +295,16 @@ func c28RunHistory(t *testing.T, idx int, line string) c28Result {
 				PurgeLocal(id)
 			}
 
+			if res.Kind == "BG" {
+				// the background sweepers of this history end at their next wake-up (their cache is gone)
+				time.Sleep(61 * time.Second)
+			}
+
 			synctest.Wait()
 			SetOnEvict(nil)
 
 			OnPurge = nil
 			MaxCacheSize, expireTime = savedMax, savedExpire
-			// any background sweeper of this history ends at its next wake-up (its cache is gone);
-			// the bubble's virtual clock runs on until it has.
 		}()
 
 		manual := res.Kind != "BG"
@@ -496,7 +499,7 @@ func (s *c28LockScan) note(n ast.Node, locked bool) {
 
 			return false
 		case *ast.Ident:
-			if s.shared[v.Name] && v.Obj != nil && v.Obj.Kind == ast.Var {
+			if s.shared[v.Name] && (v.Obj == nil || v.Obj.Kind == ast.Var) {
 				s.acc = append(s.acc, c28Access{Func: s.fn, Ident: v.Name, File: s.file,
 					Line: s.fset.Position(v.Pos()).Line, Locked: locked})
 			}
